@@ -363,6 +363,12 @@ theorem inv_post {c : Center} (h : Inv c) (n : Name) (s : Obj) (d : Data) (t : O
     · exact inv_enqueue h _ _
     · exact runAll_preserves Inv _ (fun c k hc => inv_deliverKey rec hrec hc n s d t k) c _ h
 
+theorem inv_repost {c : Center} (h : Inv c) (q : Note) : Inv (repost rec c q).1 := by
+  unfold repost
+  split
+  · exact h
+  · exact inv_post rec hrec h _ _ _ _
+
 theorem inv_release {c : Center} (h : Inv c) (hk : HKey) : Inv (release rec c hk).1 := by
   unfold release
   split
@@ -370,7 +376,7 @@ theorem inv_release {c : Center} (h : Inv c) (hk : HKey) : Inv (release rec c hk
   · rename_i hd hg
     split
     · simp only
-      apply runAll_preserves Inv _ (fun c q hc => inv_post rec hrec hc q.name q.sender q.data q.target)
+      apply runAll_preserves Inv _ (fun c q hc => inv_repost rec hrec hc q)
       refine { h with holdKeys := ?_, holdPos := ?_, holdQueue := ?_ }
       · exact AL.nodup_keys_erase _ _ h.holdKeys
       · intro kh hkh; exact h.holdPos _ (AL.mem_erase hkh)
